@@ -172,6 +172,7 @@ type PropResult struct {
 	Bounded     []map[string]any
 	EngineFail  []engineFail
 	EngineNotes []string
+	RelNotes    []string
 }
 
 type engineFail struct{ Fn, Why string }
@@ -286,6 +287,30 @@ func runProperty(p *Program, cfg *PropConfig, tier string, verbose bool) *PropRe
 		if verbose {
 			printReport(rep, false)
 		}
+	}
+	if cfg.ID == "C17" {
+		robs, notes, err := p.relObligations()
+		if err != nil {
+			res.Broken = append(res.Broken, "relational mode: "+err.Error())
+		}
+		discharge(robs, opt)
+		for i, o := range robs {
+			if o.Result != nil && o.Result.Status != "unsat" && o.relAlt != nil {
+				alt := o.relAlt()
+				discharge([]*Obligation{alt}, opt)
+				if alt.Result != nil && alt.Result.Status != "unsat" && alt.relAlt != nil {
+					alt = o.relAlt()
+					discharge([]*Obligation{alt}, opt)
+				}
+				if alt.Result != nil && alt.Result.Status == "unsat" {
+					robs[i] = alt
+				} else if alt.Result != nil {
+					o.Desc += fmt.Sprintf(" [alternative over all non-text root detectors: %s %v]", alt.Result.Status, alt.Result.All)
+				}
+			}
+		}
+		res.Obs = append(res.Obs, robs...)
+		res.RelNotes = notes
 	}
 	// program-level obligations (syntactic scans)
 	for _, o := range p.programObligations(cfg.ID) {
